@@ -37,6 +37,12 @@ class _ConsistentSet(object):
             self._sequence = sorted((hash(e) for e in set_sequence))
 
 
+class _ConsistentFrozenSet(_ConsistentSet):
+    """Same as _ConsistentSet for frozensets, so that a frozenset and a set
+    with the same items still hash differently.
+    """
+
+
 class _MyHash(object):
     """Class used to hash objects that won't normally pickle"""
 
@@ -153,6 +159,13 @@ class Hasher(Pickler):
         Pickler.save(self, _ConsistentSet(set_items))
 
     dispatch[type(set())] = save_set
+
+    def save_frozenset(self, set_items):
+        # the iteration order of a frozenset depends on the hash seed of the
+        # interpreter: force the order as for sets.
+        Pickler.save(self, _ConsistentFrozenSet(set_items))
+
+    dispatch[type(frozenset())] = save_frozenset
 
 
 class NumpyHasher(Hasher):
